@@ -474,6 +474,14 @@ func (m Mesh) ScanPrimitivesParallelWithPoolSize(size int, f func(i int, p Primi
 		return m.ScanPrimitives(f)
 	}
 
+	// Reject what ScanPrimitives rejects here, where the caller can recover it,
+	// and not inside a worker, where the panic takes the whole process down
+	switch m.topology {
+	case TriangleTopology, PointTopology, LineStripTopology:
+	default:
+		panic(fmt.Errorf("unimplemented topology: %s", m.topology.String()))
+	}
+
 	var wg sync.WaitGroup
 
 	totalWork := m.PrimitiveCount()
